@@ -7,19 +7,35 @@ open FormulaicVerif.Model.Variables FormulaicVerif.Model.LMap
 
 variable {ν : Type}
 
+/-- the caller's context written out top first as one association list (nested layers expanded) -/
+def contextItems (L : Layers ν) : List (String × ν) := L.context.flat
+
 /-- the value of key `k`: data first, then the caller's context, then the transforms -/
 def valueOf (L : Layers ν) (k : String) : Option ν :=
-  (L.data ++ L.context ++ L.transforms).lookup k
+  (L.data ++ contextItems L ++ L.transforms).lookup k
 
-/-- value and name of the first of data, context, transforms that contains `k` -/
+/-- value and name of the first of data, context, transforms that contains `k`. Inside the context
+the name is the path of layer names from `context` down to the layer holding the key
+(`Layer.getNamed`, the model of `get_with_layer_name` of C19); it is exactly `context` when no
+sub-layer of the caller's context is named (`Props.C17.context_source`). -/
 def firstLayer (L : Layers ν) (k : String) : Option (ν × Option String) :=
   match L.data.lookup k with
   | some v => some (v, some "data")
-  | none => match L.context.lookup k with
-    | some v => some (v, some "context")
+  | none => match L.context.getNamed ["context"] (some "context") k with
+    | some x => some x
     | none => match L.transforms.lookup k with
       | some v => some (v, some "transforms")
       | none => none
+
+mutual
+/-- no `LayeredMapping` inside the layer carries a (truthy) name -/
+def allUnnamed : Layer ν → Bool
+  | .dict _ => true
+  | .lm name _ layers => (named name).isNone && allUnnamedL layers
+def allUnnamedL : List (Layer ν) → Bool
+  | [] => true
+  | l :: r => allUnnamed l && allUnnamedL r
+end
 
 /-- what CPython finds for a key: the three layers, then the builtins -/
 def lookupAll (L : Layers ν) (k : String) : Option ν :=
@@ -31,7 +47,7 @@ def dataKeys (L : Layers ν) : List String := L.data.map (·.1)
 
 /-- no layer below the data binds `v` (removing the data column really unbinds the name) -/
 def Unshadowed (L : Layers ν) (v : String) : Prop :=
-  L.context.lookup v = none ∧ L.transforms.lookup v = none ∧ L.builtins.lookup v = none
+  (contextItems L).lookup v = none ∧ L.transforms.lookup v = none ∧ L.builtins.lookup v = none
 
 /-! ### occurrences of names in an expression -/
 
